@@ -4,6 +4,7 @@ package dbwrap
 
 import (
 	"bytes"
+	"encoding/json"
 	"runtime"
 	"strconv"
 	"sync"
@@ -44,6 +45,8 @@ type DB struct {
 	ByG     map[int64]int64 // the same per calling goroutine
 	Log     []string
 	KeepLog bool
+	KeepRes bool
+	Res     map[int64][]string // per goroutine: name|json(result)|error of every call it made (KeepRes)
 }
 
 func Wrap(inner storage.MintDB) *DB { return &DB{Inner: inner} }
@@ -69,10 +72,35 @@ func (d *DB) pre(name string, args ...any) (*Call, error) {
 	return c, nil
 }
 
-func (d *DB) post(c *Call, err error) {
+func (d *DB) post(c *Call, err error) { d.postR(c, nil, err) }
+
+// postR also records, when KeepRes is set, what the calling goroutine got back from the store (E1's state key: a
+// thread's local state is a function of the results it has observed).
+func (d *DB) postR(c *Call, r any, err error) {
+	if d.KeepRes {
+		e := ""
+		if err != nil {
+			e = err.Error()
+		}
+		b, _ := json.Marshal(r)
+		g := GID()
+		d.mu.Lock()
+		if d.Res == nil {
+			d.Res = map[int64][]string{}
+		}
+		d.Res[g] = append(d.Res[g], c.Name+"|"+string(b)+"|"+e)
+		d.mu.Unlock()
+	}
 	if d.After != nil {
 		d.After(c, err)
 	}
+}
+
+// ResultsOf returns the recorded results of goroutine g.
+func (d *DB) ResultsOf(g int64) []string {
+	d.mu.Lock()
+	defer d.mu.Unlock()
+	return append([]string(nil), d.Res[g]...)
 }
 
 func (d *DB) Calls() int64 { d.mu.Lock(); defer d.mu.Unlock(); return d.N }
@@ -100,7 +128,7 @@ func (d *DB) GetSeed() ([]byte, error) {
 		return nil, err
 	}
 	r, err := d.Inner.GetSeed()
-	d.post(c, err)
+	d.postR(c, r, err)
 	return r, err
 }
 func (d *DB) SaveKeyset(a storage.DBKeyset) error {
@@ -118,7 +146,7 @@ func (d *DB) GetKeysets() ([]storage.DBKeyset, error) {
 		return nil, err
 	}
 	r, err := d.Inner.GetKeysets()
-	d.post(c, err)
+	d.postR(c, r, err)
 	return r, err
 }
 func (d *DB) UpdateKeysetActive(id string, active bool) error {
@@ -145,7 +173,7 @@ func (d *DB) GetProofsUsed(Ys []string) ([]storage.DBProof, error) {
 		return nil, err
 	}
 	r, err := d.Inner.GetProofsUsed(Ys)
-	d.post(c, err)
+	d.postR(c, r, err)
 	return r, err
 }
 func (d *DB) AddPendingProofs(a cashu.Proofs, q string) error {
@@ -163,7 +191,7 @@ func (d *DB) GetPendingProofs(Ys []string) ([]storage.DBProof, error) {
 		return nil, err
 	}
 	r, err := d.Inner.GetPendingProofs(Ys)
-	d.post(c, err)
+	d.postR(c, r, err)
 	return r, err
 }
 func (d *DB) GetPendingProofsByQuote(q string) ([]storage.DBProof, error) {
@@ -172,7 +200,7 @@ func (d *DB) GetPendingProofsByQuote(q string) ([]storage.DBProof, error) {
 		return nil, err
 	}
 	r, err := d.Inner.GetPendingProofsByQuote(q)
-	d.post(c, err)
+	d.postR(c, r, err)
 	return r, err
 }
 func (d *DB) RemovePendingProofs(Ys []string) error {
@@ -199,7 +227,7 @@ func (d *DB) GetMintQuote(a string) (storage.MintQuote, error) {
 		return storage.MintQuote{}, err
 	}
 	r, err := d.Inner.GetMintQuote(a)
-	d.post(c, err)
+	d.postR(c, r, err)
 	return r, err
 }
 func (d *DB) GetMintQuoteByPaymentHash(a string) (storage.MintQuote, error) {
@@ -208,7 +236,7 @@ func (d *DB) GetMintQuoteByPaymentHash(a string) (storage.MintQuote, error) {
 		return storage.MintQuote{}, err
 	}
 	r, err := d.Inner.GetMintQuoteByPaymentHash(a)
-	d.post(c, err)
+	d.postR(c, r, err)
 	return r, err
 }
 func (d *DB) UpdateMintQuoteState(q string, s nut04.State) error {
@@ -235,7 +263,7 @@ func (d *DB) GetMeltQuote(a string) (storage.MeltQuote, error) {
 		return storage.MeltQuote{}, err
 	}
 	r, err := d.Inner.GetMeltQuote(a)
-	d.post(c, err)
+	d.postR(c, r, err)
 	return r, err
 }
 func (d *DB) GetMeltQuoteByPaymentRequest(a string) (*storage.MeltQuote, error) {
@@ -244,7 +272,7 @@ func (d *DB) GetMeltQuoteByPaymentRequest(a string) (*storage.MeltQuote, error) 
 		return nil, err
 	}
 	r, err := d.Inner.GetMeltQuoteByPaymentRequest(a)
-	d.post(c, err)
+	d.postR(c, r, err)
 	return r, err
 }
 func (d *DB) UpdateMeltQuote(q, pre string, s nut05.State) error {
@@ -271,7 +299,7 @@ func (d *DB) GetBlindSignature(a string) (cashu.BlindedSignature, error) {
 		return cashu.BlindedSignature{}, err
 	}
 	r, err := d.Inner.GetBlindSignature(a)
-	d.post(c, err)
+	d.postR(c, r, err)
 	return r, err
 }
 func (d *DB) GetBlindSignatures(a []string) (cashu.BlindedSignatures, error) {
@@ -280,7 +308,7 @@ func (d *DB) GetBlindSignatures(a []string) (cashu.BlindedSignatures, error) {
 		return nil, err
 	}
 	r, err := d.Inner.GetBlindSignatures(a)
-	d.post(c, err)
+	d.postR(c, r, err)
 	return r, err
 }
 func (d *DB) GetIssuedEcash() (map[string]uint64, error) {
@@ -289,7 +317,7 @@ func (d *DB) GetIssuedEcash() (map[string]uint64, error) {
 		return nil, err
 	}
 	r, err := d.Inner.GetIssuedEcash()
-	d.post(c, err)
+	d.postR(c, r, err)
 	return r, err
 }
 func (d *DB) GetRedeemedEcash() (map[string]uint64, error) {
@@ -298,7 +326,7 @@ func (d *DB) GetRedeemedEcash() (map[string]uint64, error) {
 		return nil, err
 	}
 	r, err := d.Inner.GetRedeemedEcash()
-	d.post(c, err)
+	d.postR(c, r, err)
 	return r, err
 }
 func (d *DB) Close() error { return d.Inner.Close() }
